@@ -101,6 +101,56 @@ def comparisons(fn, is_q, is_b):
     return out
 
 
+def _const_bools(fn):
+    """bool locals whose every definition assigns a constant (`matches!(..)`, a match with bool arms): local -> (true defs, false defs)"""
+    if hasattr(fn, "_const_bools"):
+        return fn._const_bools
+    out = {}
+    for l, ds in fn.defs().items():
+        if l == 0 or len(ds) < 2 or fn.locals[l] != "bool":
+            continue
+        tr, fa, ok = [], [], True
+        for node, kind, pl in ds:
+            if kind != "assign" or len(pl["lhs"]) != 1 or pl["rv"]["r"] != "use" or "k" not in pl["rv"]["o"]:
+                ok = False
+                break
+            v = pl["rv"]["o"]["k"].get("v")
+            (tr if v == 1 else fa).append(node)
+        if ok and tr and fa:
+            out[l] = (tr, fa)
+    fn._const_bools = out
+    return out
+
+
+def forward_through_bools(fn, facts):
+    """`if matches!(x, Some(m) if m <= len)` computes the comparison inside the pattern guard, stores true / false in a temporary and
+    branches on the temporary afterwards.  If every `true` (resp. `false`) assignment of such a temporary lies behind an edge that
+    carries a fact, the temporary's true (false) edge carries that fact as well."""
+    extra = []
+    cb = _const_bools(fn)
+    if not cb:
+        return extra
+    live = fn.live_nodes()
+    by_edge = {}
+    for sw, lab, rel, cn in facts:
+        by_edge.setdefault((sw, lab), set()).add((rel, cn))
+    for (sw, lab), rels in by_edge.items():
+        r = None
+        for l, (tr, fa) in cb.items():
+            tests = fn.bool_tests(l)
+            if not tests:
+                continue
+            if r is None:
+                r = fn.reach([fn.entry], cut={(sw, lab)})
+            for defs, which in ((tr, 1), (fa, 2)):
+                d = [n for n in defs if n in live]
+                if d and not any(n in r for n in d):
+                    for t in tests:
+                        for rel, cn in rels:
+                            extra.append((t[0], t[which], rel, cn))
+    return extra
+
+
 def edge_facts(fn, is_q, is_b):
     """[(switch_node, label, rel, cmp_node)] : on edge (switch,label) the fact `Q rel B` holds"""
     out = []
@@ -108,6 +158,7 @@ def edge_facts(fn, is_q, is_b):
         for sw, t_lab, f_lab in fn.bool_tests(dest):
             out.append((sw, t_lab, rel, node))
             out.append((sw, f_lab, NEG[rel], node))
+    out += [e for e in forward_through_bools(fn, out) if e not in out]
     return out
 
 
